@@ -1,9 +1,9 @@
 """C14 — More on-site renewable electricity never makes the building look worse"""
 from fractions import Fraction
-from .. import core, epflow, gen, metacheck, oracles
+from .. import core, epflow, gen, metacheck, oracles, regset
 from .c10 import line_of
 
-THEOREMS = ["C14_grid_delivered_never_grows", "C14_exported_never_shrinks", "C14_nren_co2_never_grow", "C14_step_both_sources",
+THEOREMS = ["C14_building", "C14_grid_delivered_never_grows", "C14_exported_never_shrinks", "C14_nren_co2_never_grow", "C14_step_both_sources",
             "C14_ren_never_shrinks_without_cogeneration", "C14_ratio", "C14_rer_with_renewable_cogeneration_refuted"]
 
 
@@ -69,9 +69,10 @@ def run(tier, seed):
     return metacheck.run("C14", tier, seed, THEOREMS, make_pairs,
                          "theorems: without load matching, grid-delivered electricity does not grow, exports do not shrink, and under regular "
                          "(regulatory) factor sets the non-renewable primary energy and the emissions of the electricity carrier do not grow in "
-                         "step A and step B for k_exp in [0,1]. Partial: the load matching mode and the RER statement are decided by the "
+                         "step A and step B for k_exp in [0,1]; C14_building: the same for the whole building under the regulatory sets; RER: "
+                         "renewable energy does not shrink without cogeneration. Partial: the load matching mode is decided by the "
                          "differential run on the implementation only; RER with renewable-fuelled cogeneration is a known finding",
                          "each generated building (PV, cogeneration, both, non-EPB uses, heat pumps; four regulatory locations; k_exp in [0,1]; "
                          "with and without load matching) is re-evaluated with one more EL_INSITU production line (one step, some steps, all "
                          "steps); we.a / we.b nren and co2, del.grid compared, RER for k_exp = 0",
-                         n_pairs=200 if tier == "quick" else 4000)
+                         n_pairs=200 if tier == "quick" else 4000, extra_stage=regset.stage)
